@@ -54,6 +54,23 @@ def cases(tier, seed):
                 d2 = dict(meshes[(mi + 1) % len(meshes)])
                 d2.update({"fields": other, "time": times[(k + 1) % len(times)], "seed": seed + 1, "payload": "signed"})
                 out.append({"desc": d, "desc2": d2, "triples": third, "names": NAMES[k % len(NAMES)]})
+    # ONE field on levels with several boxes (the extrema are not in the first box), a square table (as many boxes as fields),
+    # field names with blanks
+    mb = scope.many_box_mesh()
+    specials = [({"ndims": 3, "domain": mb["domain"], "levels": mb["levels"][:1]}, ["temp"]),
+                ({"ndims": 2, "domain": [4, 6], "levels": [scope.named_meshes(2)[1]["levels"][0]]}, ["density"]),
+                (scope.named_meshes(3)[2], ["temp", "density", "Z"]),                   # 3 boxes x 3 fields on levels 0 and 1
+                (scope.named_meshes(2)[2], ["volume fraction", "x velocity", "temp"]),
+                (scope.named_meshes(3)[1], ["mass fraction of H2", "temp"])]
+    for si, (mesh, fs) in enumerate(specials):
+        nd = mesh["ndims"]
+        d = dict(mesh)
+        d.update(list(scope.geometries(nd))[(seed + si) % 6])
+        d.update({"fields": fs, "time": times[(seed + si) % len(times)], "seed": seed, "payload": "signed",
+                  "layout": [scope.scattered_layout(len(b), 3) if len(b) > 4 else scope.layouts(len(b), 'idrev')[-1] for b in mesh["levels"]]})
+        d2 = dict(scope.named_meshes(nd)[1])
+        d2.update({"fields": FIELDSETS[2], "time": 2.0, "seed": seed + 1, "payload": "signed"})
+        out.append({"desc": d, "desc2": d2, "triples": False, "names": NAMES[si % len(NAMES)]})
     # NaN in the per-box tables of level 0 only / of the finer levels only: whatever the table shows for NaN, it must not
     # depend on WHICH level holds it
     for nd in (2, 3):
@@ -182,7 +199,8 @@ def check_default(rec, sub, fields, text, db):
     for f in fields:
         cat = category(f, db)
         label = cat if cat is not None else f
-        n = toks.count(label)
+        # (a name with blanks is one cell of the fixed-width table: counted as a whole, delimited by blanks)
+        n = toks.count(label) if " " not in label else len(re.findall(r"(?<!\S)%s(?!\S)" % re.escape(label), "\n".join(vb)))
         if n != 1:
             rec.fail("menu_field_listing", dict(sub, field=f), "field %r (listed as %r) appears %d times in %r" % (f, label, n, toks))
     species = sorted(f[2:-1] for f in fields if re.match(r"^Y\(.+\)$", f))
@@ -193,7 +211,7 @@ def check_default(rec, sub, fields, text, db):
             rec.fail("menu_species_listing", sub, "species listed %r, header has %r" % (stoks, species))
 
 
-ROW = re.compile(r"^(\S+)\s+:\s+(\S+)\s+(\S+)\s+(\[.*?\])\s*$")
+ROW = re.compile(r"^(\S.*?)\s+:\s+(\S+)\s+(\S+)\s+(\[.*?\])\s*$")
 
 
 def check_minmax(rec, sub, fields, text, pp, finest):
